@@ -23,6 +23,8 @@ from .. import fresh as F
 from ..compdb import AnalysisBroken
 from . import C08 as c08
 
+from . import kickmodel as K
+
 LEVEL = "other"
 
 
@@ -135,5 +137,7 @@ def run(chk, prog):
     chk.floor("R3-wake-kick-rows", len(r8), 10)
     for key_ in list(mm.eff.memo):
         chk.functions.add(key_[0])
+    # ---- R5: the source-map table is rebuilt whenever the displacement field changes (a stale table moves the grid by old offsets) ----
+    K.offset_table_sync(chk, prog, "R5")
     chk.notes.append("C05: step order and grid chaining from the constructor bindings, freshness of the wake offsets at the kick, copy-without-arithmetic. "
                      "NOT decided: that the stationary profile satisfies the Haissinski relation.")
